@@ -11,6 +11,8 @@ Model driver for C19. Line protocol (fields separated by one space; strings are 
   legacynf …same fields…                       the same with a remote that is not configured
   prov <remote> <toks>                         saltedTokenProvider
   provhttp <remote> <toks>                     the same, observed in the request rpc.Conn sends
+  fednew <remote> <toks>                       the rpc.Conn federation.New wires up for the remote
+                                               (local backend unreachable: every lookup fails)
   provnc <remote>                              saltedTokenProvider, no credentials in the context
   keep <remote> <tok>                          remoteProxy.remoteClient
   keepget <remote> <tok>                       remoteProxy.Get with a +R<remote>- hint
@@ -216,14 +218,16 @@ def step (line : String) : String :=
       | _, _, _, _ => "bad-op"
     else "bad-op"
   | [op, rm, ts] =>
-    if op == "prov" || op == "provhttp" then
+    if op == "prov" || op == "provhttp" || op == "fednew" then
       match unhex rm, parseToks ts with
       | some rm, some ts =>
+        -- fednew: the local backend is unreachable, every lookup is an error without status
         let lookup := fun (t : Str) =>
+          if op == "fednew" then Lookup.error 500 else
           match ts.find? (fun p => p.1 == t) with
           | some p => p.2
           | none => Lookup.error 401
-        showProv (op == "provhttp") (provider hmacSha1 rm lookup (some (ts.map (·.1))))
+        showProv (op != "prov") (provider hmacSha1 rm lookup (some (ts.map (·.1))))
       | _, _ => "bad-op"
     else if op == "keep" then
       match unhex rm, unhex ts with
